@@ -34,7 +34,10 @@ def full_classes(F, short, need=("update",)):
 def alg_classes(F, short, need=("update",)):
     """Full instantiations used by the algebraic engine: DIM >= 2 (for DIM == 1 the N x DIM storage type
     coincides with VectorXd; DIM == 1 is covered by the parametricity rule C13-R4)."""
-    out = [c for c in full_classes(F, short, need) if (F.record(c).get("targs") or [0])[0] != 1]
+    # shapes must tell row blocks (r x DIM) from scalar blocks (r x r) and N x DIM arrays from the
+    # N x 4 / N x 9 block storage, hence the excluded dimensions per order
+    bad = {"CubicSplineND": {1}, "QuinticSplineND": {1, 2, 4}, "SepticSplineND": {1, 3, 9}}.get(short, {1})
+    out = [c for c in full_classes(F, short, need) if (F.record(c).get("targs") or [0])[0] not in bad]
     if not out:
         raise Broken("no DIM>=2 instantiation of " + short)
     return out
